@@ -146,7 +146,7 @@ def gen_base_op(cfg, rs, enabled, swarm):
             op['abort'] = rs.randint(1, n_leaf_calls(cfg))
         return op
     if k == 'perturb_arch':
-        styles = ['binary', 'real', 'extreme', 'threshold', 'allzero'] if method == 'pit' else \
+        styles = ['binary', 'binary', 'real', 'extreme', 'threshold', 'allzero', 'permute', 'permute'] if method == 'pit' else \
             ['gap', 'gap', 'real', 'gap_large']
         return {'op': 'perturb_arch', 'style': rs.choice(styles)}
     if k == 'perturb_net':
